@@ -144,45 +144,45 @@ From S4.Model Require Import Program.
 From S4.Proofs Require Import ProgramProofs ProgramExamples.
 
 (* schedule independence of the WHOLE output: stdout items and summary totals *)
-Theorem C06_program_schedule_independent : forall dated dtspan cap bs sched1 sched2 o files,
-  (0 < bs)%N -> domain dated dtspan files -> gate_passed dated bs files ->
-  complete dated dtspan cap o files sched1 -> complete dated dtspan cap o files sched2 ->
-  program_m dated dtspan cap bs sched1 o files = program_m dated dtspan cap bs sched2 o files.
+Theorem C06_program_schedule_independent : forall O cap bs sched1 sched2 o files,
+  (0 < bs)%N -> domain O o files -> gate_passed O bs files ->
+  complete O cap o files sched1 -> complete O cap o files sched2 ->
+  program_m O cap bs sched1 o files = program_m O cap bs sched2 o files.
 Proof. exact program_schedule_independent. Qed.
 Print Assumptions C06_program_schedule_independent.
 
 (* under EVERY maximal execution (any interleaving, no fairness assumption, any capacity >= 1) the
    whole program prints the specification *)
-Theorem C06_program_correct_maximal : forall dated dtspan cap bs sched s' o files,
-  1 <= cap -> (0 < bs)%N -> domain dated dtspan files -> gate_passed dated bs files ->
-  run cap (init (tags_of (spec_sources dated dtspan o files))) sched = Some s' ->
+Theorem C06_program_correct_maximal : forall O cap bs sched s' o files,
+  1 <= cap -> (0 < bs)%N -> domain O o files -> gate_passed O bs files ->
+  run cap (init (tags_of (spec_sources O o files))) sched = Some s' ->
   (forall e, step cap s' e = None) ->
-  program_m dated dtspan cap bs sched o files = POk (program_spec dated dtspan o files).
+  program_m O cap bs sched o files = POk (program_spec O o files).
 Proof. exact program_correct_maximal. Qed.
 Print Assumptions C06_program_correct_maximal.
 
 (* complete schedules exist for every input; every maximal execution is complete *)
-Theorem C06_complete_schedule_exists : forall dated dtspan cap o files, 1 <= cap ->
-  exists sched, complete dated dtspan cap o files sched.
+Theorem C06_complete_schedule_exists : forall O cap o files, 1 <= cap ->
+  exists sched, complete O cap o files sched.
 Proof. exact complete_schedule_exists. Qed.
 Print Assumptions C06_complete_schedule_exists.
 
-Theorem C06_maximal_schedule_complete : forall dated dtspan cap o files sched s', 1 <= cap ->
-  run cap (init (tags_of (spec_sources dated dtspan o files))) sched = Some s' ->
+Theorem C06_maximal_schedule_complete : forall O cap o files sched s', 1 <= cap ->
+  run cap (init (tags_of (spec_sources O o files))) sched = Some s' ->
   (forall e, step cap s' e = None) ->
-  complete dated dtspan cap o files sched.
+  complete O cap o files sched.
 Proof. exact maximal_schedule_complete. Qed.
 Print Assumptions C06_maximal_schedule_complete.
 
 (* an event list that is not an execution, or stops early, is reported — not accepted *)
 Example C06_program_example_incomplete :
-  program_m dated_ex dtspan_ex 1 3 (firstn 10 sched_lazy) opts_ex files_ex = PNotFinal /\
-  program_m dated_ex dtspan_ex 1 3 [Print] opts_ex files_ex = PSchedule.
+  program_m O_ex 1 3 (firstn 10 sched_lazy) opts_ex files_ex = PNotFinal /\
+  program_m O_ex 1 3 [Print] opts_ex files_ex = PSchedule.
 Proof. exact ex_incomplete. Qed.
 Print Assumptions C06_program_example_incomplete.
 
 Example C06_program_example_two_schedules :
-  program_m dated_ex dtspan_ex 1 3 sched_lazy opts_ex files_ex = POk (program_spec dated_ex dtspan_ex opts_ex files_ex) /\
-  program_m dated_ex dtspan_ex 5 64 sched_eager opts_ex files_ex = POk (program_spec dated_ex dtspan_ex opts_ex files_ex).
+  program_m O_ex 1 3 sched_lazy opts_ex files_ex = POk (program_spec O_ex opts_ex files_ex) /\
+  program_m O_ex 5 64 sched_eager opts_ex files_ex = POk (program_spec O_ex opts_ex files_ex).
 Proof. exact ex_program_by_theorem. Qed.
 Print Assumptions C06_program_example_two_schedules.
